@@ -193,8 +193,12 @@ func RunWorker(a WorkerArgs) *WorkerReport {
 			fmt.Fprintf(os.Stderr, "worker %d: j=%d seed=%d\n", a.Idx, j, seed)
 		}
 		runStart := time.Now()
-		watchdog := time.AfterFunc(240*time.Second, func() {
-			fmt.Fprintf(os.Stderr, "INFRA: worker %d: run j=%d seed=%d of %s has been executing for 240 s of real time\n", a.Idx, j, seed, a.Prop)
+		wdLimit := 240 * time.Second
+		if a.Tier == "thorough" {
+			wdLimit = 1200 * time.Second // histories whose every crash point is booted
+		}
+		watchdog := time.AfterFunc(wdLimit, func() {
+			fmt.Fprintf(os.Stderr, "INFRA: worker %d: run j=%d seed=%d of %s has been executing for %v of real time\n", a.Idx, j, seed, a.Prop, wdLimit)
 			os.Exit(2)
 		})
 		plan := Generate(a.Prop, seed, a.Tier)
